@@ -98,6 +98,13 @@ pub fn run_reply_program(vt: &ReplyVt, prog: &Value) {
                 None => continue,
             }
         };
+        // a reply that did not come from the builder: same id, an empty or a garbage payload
+        let pay = s["pay"].as_str().unwrap_or("built");
+        let payload = match pay {
+            "empty" => Binary::default(),
+            "garbage" => Binary::from(b"\xff{not json".to_vec()),
+            _ => payload,
+        };
         let nev = s["events"].as_u64().unwrap_or(0);
         let class = s["class"].as_str().unwrap_or("absent");
         let result_ok = s["result"] == "ok";
@@ -113,7 +120,7 @@ pub fn run_reply_program(vt: &ReplyVt, prog: &Value) {
             };
             let gas = 1000 + seq as u64;
             let reply = Reply { id: rid.parse().unwrap(), payload: payload.clone(), gas_used: gas, result };
-            rt::emit(json!({"ev":"Reply","prog":id,"seq":seq,"via":via,"h":h,"id":rid,"result":s["result"],"events":nev,"msgresp": if result_ok && nev > 0 { 1 } else { 0 },
+            rt::emit(json!({"ev":"Reply","prog":id,"seq":seq,"via":via,"h":h,"pay":pay,"id":rid,"result":s["result"],"events":nev,"msgresp": if result_ok && nev > 0 { 1 } else { 0 },
                 "class": if result_ok { class } else { "absent" }, "data": data_bytes(if result_ok { class } else { "absent" }).map(|b| b.to_base64()).unwrap_or_default(),
                 "err_text": format!("sub failed {seq}"), "gas_used": gas.to_string(), "payload": payload.to_base64(), "env": envj}));
             let f = vt.dispatch;
